@@ -367,4 +367,10 @@ pub fn run(ctx: &mut Ctx) {
             ctx.sample(|| json!({"dag": d.describe(), "ids": ids}));
         }
     }
+    // ---- sequences of ontologies built one after the other at the same address (scores must not depend on
+    // what was scored before, in this or in another ontology; kinds innermost)
+    {
+        let mut total = (0u64, 0u64);
+        super::common::ontology_sequences(ctx, "builder", Mode::Minimal, &mut |ont, r| check_ontology(ont, r, &ALGS, &mut total));
+    }
 }
